@@ -156,3 +156,42 @@ Example C11_example_late :
   let s1 := pl_exec ex_cfg (List.concat (map (fun t => repeat t 8) [0; 1; 2]%nat) ++ [3; 3]%nat) in
   ch_closed (ps_ch s1) = true /\ ps_mapped s1 = true /\ ps_thr s1 4%nat = TW WLookup.
 Proof. vm_compute. repeat split; reflexivity. Qed.
+
+(* ---- visitor listener accept path (InternalListener + the proxy's accept loop), every order of
+        PutConn / Close / Accept ---- *)
+
+(* a connection sitting in the listener's queue is still going to be received: no accept loop has
+   stopped while something is queued (Close only closes the channel; Accept drains it first) *)
+Theorem C11_visitor_queued_will_be_received : forall cfg sched c t,
+  let s := il_exec cfg sched in is_fate s c = IQueued -> is_thr s t <> Some ILEnd.
+Proof. exact visitor_queued_will_be_received. Qed.
+Print Assumptions C11_visitor_queued_will_be_received.
+
+(* once the accept loop has stopped, every connection whose PutConn has returned was handed to
+   handleUserTCPConnection (then C11_user_conn_bridged_or_closed applies) or closed *)
+Theorem C11_visitor_conn_handled_or_closed : forall cfg sched c t,
+  let s := il_exec cfg sched in
+  is_thr s t = Some ILEnd -> is_thr s c = Some IPEnd -> is_fate s c = IHandled \/ is_fate s c = IClosed.
+Proof. exact visitor_conn_handled_or_closed. Qed.
+Print Assumptions C11_visitor_conn_handled_or_closed.
+
+(* the loop takes the head of a non-empty queue at its next step, closed listener or not, and it stops
+   at its next step once the listener is closed and drained *)
+Theorem C11_visitor_loop_progress : forall s t c r,
+  is_thr s t = Some ILRun -> ch_q (is_ch s) = c :: r -> is_fate (il_step s t) c = IHandled.
+Proof. exact visitor_loop_progress. Qed.
+Print Assumptions C11_visitor_loop_progress.
+
+Theorem C11_visitor_loop_ends_after_close : forall s t,
+  is_thr s t = Some ILRun -> ch_closed (is_ch s) = true -> ch_q (is_ch s) = [] -> is_thr (il_step s t) t = Some ILEnd.
+Proof. exact visitor_loop_ends_after_close. Qed.
+Print Assumptions C11_visitor_loop_ends_after_close.
+
+(* non-vacuity: three visitors queued, listener closed, then the loop runs: all three handed over, loop ends;
+   a fourth one arriving after Close is refused and closed by the caller *)
+Example C11_example_visitor :
+  let s := il_exec {| ic_cap := il_code_cap; ic_reqs := [IPut; IPut; IPut; IClose; ILoop; IPut] |}
+                   [0; 1; 2; 3; 5; 5; 4; 4; 4; 4]%nat in
+  is_fate s 0%nat = IHandled /\ is_fate s 1%nat = IHandled /\ is_fate s 2%nat = IHandled /\
+  is_fate s 5%nat = IClosed /\ is_thr s 4%nat = Some ILEnd.
+Proof. vm_compute. repeat split; reflexivity. Qed.
